@@ -362,6 +362,25 @@ theorem C14_kept_in_issue_order (p : Int) (es : List Event) :
   rw [C14_playFrom_shape]
   exact List.suffix_append _ _
 
+/-- **the re-issued values take effect before the first remaining note, in the file**: in the event sequence the writer encodes
+    for a track (`normalize`: note-offs made, stable sort by tick) every re-issued controller / program event stands before every
+    remaining note-on — they are at tick 0 and were put in front, and the sort is stable.  (`sort_by` is modelled by the stable
+    `List.mergeSort`; an unstable sort breaks exactly this, which the `pfmidi` stream watches in the real files.) -/
+theorem C14_reissued_before_notes (p : Int) (es : List Event) (x e : Event) (hx : x ∈ restoreAll (pfAcc p es))
+    (he : e ∈ es) (hk : e.kind = .noteOn) (ht : p ≤ e.time) :
+    List.Sublist [x, { e with time := e.time - p }] (normalize (playFrom p es)) := by
+  have hx0 : x.time = 0 := (C14_restored_at_zero _ x hx).1
+  have hmem : ({ e with time := e.time - p } : Event) ∈ (es.filter (fun e => decide (¬ e.time < p))).filterMap (pfKeep p) :=
+    List.mem_filterMap.mpr ⟨e, List.mem_filter.mpr ⟨he, by simp only [decide_eq_true_eq]; omega⟩, by simp [pfKeep, hk]⟩
+  -- x stands before the kept note in the list handed to the writer
+  have hsub : List.Sublist [x, { e with time := e.time - p }] (playFrom p es) := by
+    rw [C14_playFrom_shape, List.append_assoc]
+    have h1 : List.Sublist [x] (restoreAll (pfAcc p es)) := List.singleton_sublist.mpr hx
+    have h2 : List.Sublist [({ e with time := e.time - p } : Event)] (metasAtZero (pfBefore p es) ++ (es.filter (fun e => decide (¬ e.time < p))).filterMap (pfKeep p)) :=
+      List.singleton_sublist.mpr (List.mem_append_right _ hmem)
+    exact List.Sublist.append h1 h2
+  exact normalize_stable _ _ _ (by simp only [hx0]; omega) (hsub.trans (split_keeps_order _))
+
 /-- with no play-from point (`play_from < 0`) nothing is touched -/
 theorem C14_no_playfrom (tracks : List (List Event)) (pf : Int) (h : pf < 0) :
     songBodies pf tracks = tracks.map (fun es => genTrack (normalize es)) := by
